@@ -77,6 +77,7 @@ type Exec struct {
 	retCount int
 	coverRet map[token.Pos]bool
 	bounded  bool
+	invPos   token.Pos
 }
 
 type assignItem struct {
